@@ -334,9 +334,10 @@ def run_C04(ctx):
     # inside flush with data pending, the worker is released event by event
     for j in range(ctx.scale(1, 4)):
         recs = rnd.choice([100000, 100000, 500]) if j else 100000
-        m = rnd.randint(18, 40)
+        n = 1024 + rnd.randint(10, 34)
+        m = n if j == 0 else rnd.randint(18, 40)      # the first burst: every flush carries data (a batch of 1025 writes)
         cases.append("TRACE 100000 1073741824 %d 1073741824 1 64 | A 1 0 x61 ; F 1 ; w 1 ; burst %d %d ; wi ; A 1 %d x62 ; F 1 ; wi ; G ; snap"
-                     % (recs, 1024 + m - rnd.randint(2, 8), m, m + 1))
+                     % (recs, n, m, m + 1))
         ctx.count("channel_full_bursts")
     cases = p_seq.corpus("C04") + cases
     ff = [("fault " not in c) for c in cases]
@@ -658,7 +659,12 @@ def run_C14(ctx):
                 items.append(rnd.choice(["w 1", "w 2", "wi"]))
         # last flush, acknowledged while the removal may still be pending, then drop and reopen
         hold = rnd.choice([1, 2, 3, 4, 6, 50])
-        items += ["F 1", "w %d" % hold, rnd.choice(["dropheld", "drop", "panicheld"]), "release", "open " + cfg, "G", "R 0 100000"]
+        kind = rnd.choice(["dropheld", "drop", "panicheld"])
+        if i < ctx.scale(2, 6):
+            # a long hold: a drop that gives up waiting for the worker after a deadline shows only here
+            kind = "dropheld %d" % ctx.scale(3500, 12000)
+            hold = rnd.choice([1, 2, 3])
+        items += ["F 1", "w %d" % hold, kind, "release", "open " + cfg, "G", "R 0 100000"]
         last = sim.last()
         if last is not None:
             items += ["P %d %d" % last, "F 1", "wi", "V 4000000000 1", "F 1", "wi", "G"]
